@@ -23,7 +23,10 @@ _REGISTRY = {}   # case name -> Case (filled in the parent before forking)
 
 
 class Case:
-    def __init__(self, name, harness, kw=None, expect_tags=(), bounds=None, weight=1):
+    def __init__(self, name, harness, kw=None, expect_tags=(), bounds=None, weight=1,
+                 shard_depth=0):
+        self.shard_depth = shard_depth   # 2^depth workers share this case's path space
+        self.shard = None
         self.name = name
         self.harness = harness
         self.kw = kw or {}
@@ -52,8 +55,11 @@ def _run_case(name):
     out = {"name": name, "error": None, "kw": _jsonable(case.kw)}
     try:
         kw = dict(case.kw)
+        kw.pop("case_timeout_s", None)
         ckw = {k: kw.pop(k) for k in ("qtimeout_ms", "max_paths", "max_decisions", "div0")
                if k in kw}
+        if case.shard is not None:
+            ckw["shard"] = case.shard
         cx = Ctx(**ckw)
         h = case.harness
         explore((lambda c: h(c, **kw)) if kw else h, cx)
@@ -78,6 +84,17 @@ def _run_case(name):
 def run_cases(cases, workers=None, timeout_s=None):
     """Run cases in forked workers (largest first)."""
     _REGISTRY.clear()
+    expanded = []
+    for c in cases:
+        if c.shard_depth:
+            for i in range(1 << c.shard_depth):
+                s = Case(f"{c.name}#s{i}/{1 << c.shard_depth}", c.harness, c.kw, c.expect_tags,
+                         c.bounds, c.weight)
+                s.shard = (i, c.shard_depth)
+                expanded.append(s)
+        else:
+            expanded.append(c)
+    cases = expanded
     for c in cases:
         if c.name in _REGISTRY:
             raise RuntimeError(f"duplicate case name {c.name}")
@@ -88,19 +105,102 @@ def run_cases(cases, workers=None, timeout_s=None):
     load.tsdate_module("")
     import z3  # noqa: F401
     workers = workers or min(len(names), int(os.environ.get("VERIF_WORKERS", "16"))) or 1
-    if workers == 1 or len(names) == 1:
-        return [_run_case(n) for n in names]
+    tier = os.environ.get("VERIF_TIER_ACTIVE", "quick")
+    default_to = timeout_s or float(os.environ.get(
+        "VERIF_CASE_TIMEOUT", "420" if tier == "quick" else "2400"))
     ctx = mp.get_context("fork")
-    with ctx.Pool(workers) as pool:
-        res = [pool.apply_async(_run_case, (n,)) for n in names]
-        outs = []
-        for n, r in zip(names, res):
+    pending = list(names)
+    results = {}
+
+    class W:
+        def __init__(self):
+            self.task_r, self.task_w = ctx.Pipe(duplex=False)
+            self.res_r, self.res_w = ctx.Pipe(duplex=False)
+            self.proc = ctx.Process(target=_worker_loop, args=(self.task_r, self.res_w),
+                                    daemon=True)
+            self.proc.start()
+            self.task_r.close()
+            self.res_w.close()
+            self.name = None
+            self.t0 = 0.0
+            self.lim = 0.0
+
+        def give(self, n):
+            self.name, self.t0 = n, time.time()
+            self.lim = _REGISTRY[n].kw.get("case_timeout_s", default_to)
+            self.task_w.send(n)
+
+        def stop(self):
             try:
-                outs.append(r.get(timeout=timeout_s))
-            except mp.TimeoutError:
-                outs.append({"name": n, "error": f"case timed out after {timeout_s}s",
-                             "wall_s": timeout_s})
-        return outs
+                self.task_w.send(None)
+            except Exception:
+                pass
+            self.proc.join(timeout=2)
+            if self.proc.is_alive():
+                self.proc.kill()
+
+    pool = [W() for _ in range(workers)]
+    try:
+        while pending or any(w.name for w in pool):
+            for i, w in enumerate(pool):
+                if w.name is None:
+                    if pending:
+                        w.give(pending.pop(0))
+                    continue
+                if w.res_r.poll():
+                    try:
+                        results[w.name] = w.res_r.recv()
+                    except EOFError:
+                        results[w.name] = {"name": w.name, "kw": None,
+                                           "error": "worker died without a result",
+                                           "wall_s": time.time() - w.t0}
+                        w.proc.kill()
+                        pool[i] = W()
+                        continue
+                    w.name = None
+                elif not w.proc.is_alive():
+                    results[w.name] = {"name": w.name, "kw": None, "wall_s": time.time() - w.t0,
+                                       "error": f"worker exited with code {w.proc.exitcode}"}
+                    pool[i] = W()
+                elif time.time() - w.t0 > w.lim:
+                    w.proc.kill()
+                    w.proc.join(timeout=5)
+                    results[w.name] = {
+                        "name": w.name, "kw": _jsonable(_REGISTRY[w.name].kw),
+                        "error": f"case exceeded its {w.lim:.0f}s budget (solver or term growth "
+                                 f"did not finish): inconclusive", "wall_s": w.lim}
+                    pool[i] = W()
+            time.sleep(0.02)
+    finally:
+        for w in pool:
+            w.stop()
+    return [results[n] for n in names]
+
+
+def _worker_loop(task_r, res_w):
+    while True:
+        try:
+            n = task_r.recv()
+        except EOFError:
+            return
+        if n is None:
+            return
+        try:
+            out = _run_case(n)
+        except BaseException as e:   # noqa
+            out = {"name": n, "error": repr(e), "wall_s": 0, "kw": None}
+        res_w.send(out)
+
+
+def _case_proc(name, conn):
+    try:
+        out = _run_case(name)
+    except BaseException as e:   # noqa
+        out = {"name": name, "error": repr(e), "wall_s": 0, "kw": None}
+    try:
+        conn.send(out)
+    finally:
+        conn.close()
 
 
 def load_known(prop):
@@ -112,6 +212,7 @@ def load_known(prop):
 
 
 def match_known(known, case, obligation):
+    case = case.split("#s")[0]
     for e in known:
         if re.fullmatch(e.get("case", ".*"), case) and \
                 re.fullmatch(e.get("obligation", ".*"), obligation):
